@@ -340,9 +340,10 @@ func c08nullElements(c *Ctx, pkg string) {
 // `a range=[1:5]` and an absent required member).
 func c08noBypass(c *Ctx, pkg string) {
 	rule := "C08.R11"
-	var bad []string
 	sites := 0
 	for _, f := range c.P.AllFuncs(pkg) {
+		var bad []string
+		n := 0
 		for _, b := range f.Blocks {
 			for _, ins := range b.Instrs {
 				call, ok := ins.(ssa.CallInstruction)
@@ -353,17 +354,24 @@ func c08noBypass(c *Ctx, pkg string) {
 				if !(strings.HasPrefix(nm, mod+"core/jsonx.Unmarshal") || nm == "encoding/json.Unmarshal" || nm == "(*encoding/json.Decoder).Decode") {
 					continue
 				}
-				sites++
+				n++
 				args := call.Common().Args
 				tgt := args[len(args)-1]
 				for _, d := range reachingDefs(tgt, f, 0) {
 					if dc, ok := d.(*ssa.Call); ok && calleeName(dc.Common()) == "(reflect.Value).Interface" {
-						bad = append(bad, fmt.Sprintf("%s: %s decodes a JSON text straight into the typed target (reflect.Value.…Interface()): nested members are filled by encoding/json, their declared constraints are never checked", c.P.Pos(ins.Pos()), funcDisplay(f)))
+						bad = append(bad, fmt.Sprintf("%s: a JSON text is decoded straight into the typed target (reflect.Value.…Interface()): nested members are filled by encoding/json, their declared constraints are never checked", c.P.Pos(ins.Pos())))
 					}
 				}
 			}
 		}
+		if n == 0 {
+			continue
+		}
+		sites += n
+		sort.Strings(bad)
+		c.R.Check(len(bad) == 0, rule, funcDisplay(f)+"#decode-target", "a JSON decode inside the unmarshaller targets a generic container that is then filled through the validating path, never the typed field itself", posOf(c, f), strings.Join(bad, "; "), bad, n)
 	}
-	sort.Strings(bad)
-	c.R.Check(len(bad) == 0 && sites >= 3, rule, pkg+"#decode-targets", "every JSON decode inside the unmarshaller targets a generic container that is then filled through the validating path, never the typed field itself", "-", fmt.Sprintf("%d decode sites; %s", sites, strings.Join(bad, "; ")), bad, sites)
+	if sites < 3 {
+		c.R.Undecided(rule, pkg+"#decode-sites", "the decode sites of the package are recognised", fmt.Sprintf("%d found", sites))
+	}
 }
